@@ -65,9 +65,19 @@ func Check(env *core.Env, rep *core.Report) *core.Result {
 		c := c
 		run(func() {
 			r := core.MustHold(env, core.TLCOpts{Module: "Cancel", Config: "Cancel_" + c + ".cfg", Workers: 3, Timeout: 20 * time.Minute})
-			note("Cancel_"+c, r, "NoPanic, NoStartAfterCancel, InterruptedReportsError, CancelReturnedMeansIdle, CancelReturns (ScheduleReturns) hold")
+			note("Cancel_"+c, r, "NoPanic, NoStartAfterCancel, InterruptedReportsError, CancelReturnedMeansIdle, InflightIsCount, CancelReturns (ScheduleReturns), FlatRefinement hold")
 		})
 	}
+	// the unbounded part: CancelFlat.tla (which Cancel.tla refines, PROPERTY FlatRefinement and
+	// INVARIANT InflightIsCount of the configurations above) keeps "no command starts after a Cancel
+	// has returned" for every number of runs and Cancel calls - proved with TLAPS
+	run(func() {
+		n := core.RunTLAPM(env, "CancelFlatProofs", 10*time.Minute)
+		mu.Lock()
+		modelRuns = append(modelRuns, map[string]interface{}{"config": "CancelFlatProofs (tlapm)", "obligations_proved": n,
+			"result": "THEOREM Safety (Spec => [](NothingStartsAfterCancel /\\ QuietAfterCancel /\\ Registered)) proved for every set of runs and Cancel calls; Cancel.tla refines CancelFlat (PROPERTY FlatRefinement)"})
+		mu.Unlock()
+	})
 	for _, c := range []string{"pinned_panic", "pinned_block", "pinned_conderr"} {
 		c := c
 		run(func() {
